@@ -59,6 +59,18 @@ inline void env_free(void *p) {
 
 }  // namespace mc
 
+// ThreadSanitizer's runtime defines (non-weak) operator new/delete itself; in that
+// build the environment is declared but not installed.
+#if defined(__has_feature)
+#if __has_feature(thread_sanitizer)
+#define VERIF_NO_ALLOC_REPLACEMENT 1
+#endif
+#endif
+#if defined(__SANITIZE_THREAD__)
+#define VERIF_NO_ALLOC_REPLACEMENT 1
+#endif
+
+#ifndef VERIF_NO_ALLOC_REPLACEMENT
 void *operator new(size_t n) { return mc::env_alloc(n, false); }
 void *operator new[](size_t n) { return mc::env_alloc(n, false); }
 void *operator new(size_t n, const std::nothrow_t &) noexcept { return mc::env_alloc(n, true); }
@@ -69,5 +81,7 @@ void operator delete(void *p, size_t) noexcept { mc::env_free(p); }
 void operator delete[](void *p, size_t) noexcept { mc::env_free(p); }
 void operator delete(void *p, const std::nothrow_t &) noexcept { mc::env_free(p); }
 void operator delete[](void *p, const std::nothrow_t &) noexcept { mc::env_free(p); }
+
+#endif  // VERIF_NO_ALLOC_REPLACEMENT
 
 #endif  // VERIF_MC_ALLOC_ENV_H_
